@@ -17,7 +17,8 @@ c_aab == <<"/", "a", "b">>           \* "/ab": shares a textual prefix with /a
 c_b   == <<"/", "b">>
 c_aba == <<"/", "a", "/", "b", "/", "a">>
 c_aa  == <<"/", "a", "/", "a">>
-Cmds5 == {c_top, c_a, c_ab, c_aab, c_b}
+c_aabb == <<"/", "a", "b", "/", "b">>     \* "/ab/b": /a is a textual prefix, and a further segment follows
+Cmds5 == {c_top, c_a, c_ab, c_aab, c_b, c_aabb}
 Cmds7 == Cmds5 \cup {c_aba, c_aa}
 
 MissingLink == [missing |-> TRUE, iss |-> "A", aud |-> "A", sub |-> "A", cmd |-> c_top,
@@ -28,8 +29,10 @@ Links(I, A, S, C, Pl, N, E) ==
 Invs(I, S, A, C, G, E, H, R) ==
   [iss : I, sub : S, aud : A, cmd : C, arg : G, exp : E, hook : H, irr : R]
 
-AccSets == [1..3 -> BOOLEAN]
-Acc(S) == [k \in 1..3 |-> (k - 1) \in S]      \* acceptance vector of a set of points
+\* acceptance vectors over the points 0..3: statements over required data reject the empty
+\* argument map (point 3); only statements over optional data accept it, and they accept every point
+AccSets == {av \in [1..4 -> BOOLEAN] : av[4] => (av[1] /\ av[2] /\ av[3])}
+Acc(S) == [k \in 1..4 |-> (k - 1) \in S]      \* acceptance vector of a set of points
 Pols(n) == UNION {[1..k -> AccSets] : k \in 0..n}
 
 \* ---- C01: principals free (every link field over all principals, Undef, Missing) ----
@@ -51,11 +54,12 @@ C02_Inv7  == C02_Inv(Cmds7)
 C02_Link7 == Links({"S"}, {"S"}, {"S"}, Cmds7, {<<>>}, {-1}, {-1})
 
 \* ---- C03: policies free (every distribution of acceptance sets over statement slots) ----
-C03_Inv     == Invs({"S"}, {"S"}, {None}, {c_a}, {0, 1, 2}, {-1}, {"none", "id", "c1"}, {0})
+C03_Inv     == Invs({"S"}, {"S"}, {None}, {c_a}, {0, 1, 2}, {-1}, {"none", "id", "c1", "empty"}, {0})
 C03_Link(n) == Links({"S"}, {"S"}, {"S"}, {c_a}, Pols(n), {-1}, {-1})
 C03_Link2 == C03_Link(2)
 C03_Link1 == C03_Link(1)
-C03_InvH    == Invs({"S"}, {"S"}, {None}, {c_a}, {0, 1, 2}, {-1}, {"none", "id", "c0", "c1", "c2"}, {0})
+C03_InvH    == Invs({"S"}, {"S"}, {None}, {c_a}, {0, 1, 2}, {-1}, {"none", "id", "c0", "c1", "c2", "empty"}, {0})
+C03_Link3 == C03_Link(3)
 
 \* ---- C04: time windows free; bounds at even instants, probes at odd ones ----
 Bnd == {-1, 2, 4}
@@ -63,7 +67,7 @@ C04_Inv  == Invs({"S"}, {"S"}, {None}, {c_a}, {0}, Bnd, {"none"}, {0})
 C04_Link == Links({"S"}, {"S"}, {"S"}, {c_a}, {<<>>}, Bnd, Bnd)
 
 \* ---- C05: conforming chains generated constructively; irrelevant fields free ----
-C05_Inv  == Invs(P3, {"A", "B"}, {"M", None}, {c_ab}, {1}, {-1, 6}, {"none"}, {0, 1})
+C05_Inv  == Invs(P3, {"A", "B"}, {"M", None}, {c_ab}, {1}, {-1, 6}, {"none"}, {0, 3})
 C05_Link == Links(P3, P3, {"A", "B"}, {c_top, c_ab}, {<<>>, <<Acc({1, 2}), Acc({0, 1})>>}, {-1}, {-1})
 \* thorough: four principals, longer chains, more commands / policies / windows
 C05_Inv4  == Invs({"A", "C"}, {"A", "B"}, {"M", None}, {c_ab}, {1}, {-1}, {"none"}, {0, 1, 2, 3})
